@@ -48,6 +48,9 @@ pub fn v32(seed: u64) -> Vec<u32> {
     for b in 0..32 {
         v.push(1u32 << b);
         v.push(!(1u32 << b));
+        // low and high masks: every carry-chain length
+        v.push((1u32 << b).wrapping_sub(1));
+        v.push(!((1u32 << b).wrapping_sub(1)));
     }
     for k in 0..16 {
         v.push(mix(seed, 200 + k) as u32);
